@@ -564,6 +564,10 @@ type fault struct {
 	Xor     int    `json:"xor,omitempty"`     // corrupt: mask (1..255)
 	G       int    `json:"g,omitempty"`       // concurrent: goroutines
 	P       int    `json:"p,omitempty"`       // concurrent: processes
+	// sequence: optional foreign-version entry planted first (Version, used when Stale), then one
+	// writer process per point, each killed at its point (or finding a complete entry)
+	Stale  bool     `json:"stale,omitempty"`
+	Points []string `json:"points,omitempty"`
 }
 
 func (f fault) param() string {
@@ -578,6 +582,8 @@ func (f fault) param() string {
 		return fmt.Sprintf("%d^%d", f.Off, f.Xor)
 	case "concurrent":
 		return fmt.Sprintf("%d+%d", f.G, f.P)
+	case "sequence":
+		return fmt.Sprintf("stale=%v(%s) %s", f.Stale, f.Version, strings.Join(f.Points, ","))
 	}
 	return ""
 }
@@ -713,13 +719,25 @@ func newModCtx(spec *modSpec) (mc *modCtx, err error) {
 
 func (mc *modCtx) finalPath(dir string) string { return filepath.Join(dir, mc.refSub, mc.refName) }
 
+// plant puts entry under the final name of dir. An existing file is overwritten in place and
+// cut to the new length (not truncated to zero first: on ext4 that forces a flush on close).
 func (mc *modCtx) plant(dir string, entry []byte) error {
-	err := os.WriteFile(mc.finalPath(dir), entry, 0o600)
+	p := mc.finalPath(dir)
+	f, err := os.OpenFile(p, os.O_WRONLY|os.O_CREATE, 0o600)
 	if errors.Is(err, os.ErrNotExist) {
 		if err = os.MkdirAll(filepath.Join(dir, mc.refSub), 0o700); err != nil {
 			return err
 		}
-		err = os.WriteFile(mc.finalPath(dir), entry, 0o600)
+		f, err = os.OpenFile(p, os.O_WRONLY|os.O_CREATE, 0o600)
+	}
+	if err != nil {
+		return err
+	}
+	if _, err = f.WriteAt(entry, 0); err == nil {
+		err = f.Truncate(int64(len(entry)))
+	}
+	if cerr := f.Close(); err == nil {
+		err = cerr
 	}
 	return err
 }
@@ -859,6 +877,8 @@ func (mc *modCtx) runFault(f fault) (msg string, labels []string, infra error) {
 		return mc.faultEntry(f, e)
 	case "concurrent":
 		return mc.faultConcurrent(f)
+	case "sequence":
+		return mc.faultSequence(f)
 	}
 	return "", nil, fmt.Errorf("unknown fault kind %q", f.Kind)
 }
@@ -947,34 +967,19 @@ func (mc *modCtx) faultCrash(f fault) (msg string, labels []string, infra error)
 	if !r.signaled || r.sig != syscall.SIGKILL || r.timedOut {
 		return "", nil, fmt.Errorf("child with VERIF_CRASHPOINT=%s did not die by SIGKILL at the crash point: %s\n%s", f.Point, r.status(), r.tail())
 	}
-	st, err := readDir(dir)
-	if err != nil {
-		return "", nil, err
-	}
 	after := "after the writer was killed at " + f.Point
-	if st.Sub != "" && st.Sub != mc.refSub {
-		return fmt.Sprintf("%s: version directory %q, expected %q", after, st.Sub, mc.refSub), nil, nil
+	m, final, temps, infra := mc.checkAfterKill(dir, after)
+	if m != "" || infra != nil {
+		return m, nil, infra
 	}
-	final := false
-	for _, n := range st.names() {
-		b := st.Files[n]
-		switch {
-		case n == mc.refName:
-			final = true
-			if !bytes.Equal(b, mc.ref) {
-				return fmt.Sprintf("%s the final name %s holds an incomplete or different entry: %s; directory:%s", after, n, diffAt(b, mc.ref), st.describe()), nil, nil
+	for _, b := range temps {
+		labels = append(labels, "crash:temp-left")
+		if pointName(f.Point) == "mid_copy" {
+			var k int
+			fmt.Sscanf(f.Point, "mid_copy@%d", &k)
+			if len(b) == k {
+				labels = append(labels, "crash:mid_copy-temp-has-k-bytes")
 			}
-		case isTempOf(n, mc.refName):
-			labels = append(labels, "crash:temp-left")
-			if pointName(f.Point) == "mid_copy" {
-				var k int
-				fmt.Sscanf(f.Point, "mid_copy@%d", &k)
-				if len(b) == k {
-					labels = append(labels, "crash:mid_copy-temp-has-k-bytes")
-				}
-			}
-		default:
-			return fmt.Sprintf("%s the directory holds a file that is neither the final name nor a temp file of the key: %s (key %s)", after, n, mc.refName), nil, nil
 		}
 	}
 	if final {
@@ -1003,8 +1008,84 @@ func (mc *modCtx) faultCrash(f fault) (msg string, labels []string, infra error)
 		}
 		labels = append(labels, "crash:recovered-by-process")
 	}
-	evid.Journal(mc.rcase(f))
-	m, infra := mc.useDir("fresh runtime using the directory "+after, dir)
+	m, infra = mc.useDir("fresh runtime using the directory "+after, dir)
+	return m, labels, infra
+}
+
+// checkAfterKill verifies the directory invariant after a writer died: the final name holds
+// nothing or the reference entry, everything else is a temp file of the key.
+func (mc *modCtx) checkAfterKill(dir, after string) (msg string, final bool, temps map[string][]byte, infra error) {
+	st, err := readDir(dir)
+	if err != nil {
+		return "", false, nil, err
+	}
+	if st.Sub != "" && st.Sub != mc.refSub {
+		return fmt.Sprintf("%s: version directory %q, expected %q", after, st.Sub, mc.refSub), false, nil, nil
+	}
+	temps = map[string][]byte{}
+	for _, n := range st.names() {
+		b := st.Files[n]
+		switch {
+		case n == mc.refName:
+			final = true
+			if !bytes.Equal(b, mc.ref) {
+				return fmt.Sprintf("%s the final name %s holds an incomplete or different entry: %s; directory:%s", after, n, diffAt(b, mc.ref), st.describe()), final, nil, nil
+			}
+		case isTempOf(n, mc.refName):
+			temps[n] = b
+		default:
+			return fmt.Sprintf("%s the directory holds a file that is neither the final name nor a temp file of the key: %s (key %s)", after, n, mc.refName), final, nil, nil
+		}
+	}
+	return "", final, temps, nil
+}
+
+// faultSequence: several writers die one after the other in the same directory (optionally
+// starting from an entry of a foreign version); the invariant must hold after each death and
+// the directory must be usable afterwards.
+func (mc *modCtx) faultSequence(f fault) (msg string, labels []string, infra error) {
+	dir := mc.newDir("seq")
+	defer os.RemoveAll(dir)
+	if f.Stale {
+		e := append([]byte{}, mc.ref[:6]...)
+		e = append(e, byte(len(f.Version)))
+		e = append(e, f.Version...)
+		e = append(e, mc.ref[7+mc.lay.VerLen:]...)
+		if err := mc.plant(dir, e); err != nil {
+			return "", nil, err
+		}
+	}
+	done := ""
+	for i, pt := range f.Points {
+		r, err := mc.spawn(dir, childTimeout, "VERIF_CRASHPOINT="+pt)
+		if err != nil {
+			return "", nil, err
+		}
+		step := fmt.Sprintf("writer #%d of sequence [stale=%v%s] with crash point %s", i+1, f.Stale, done, pt)
+		done += " " + pt
+		switch {
+		case r.timedOut:
+			return fmt.Sprintf("%s hung", step), labels, nil
+		case r.signaled && r.sig == syscall.SIGKILL:
+			labels = append(labels, "sequence:writer-killed")
+		case r.signaled:
+			return fmt.Sprintf("%s: process %s\n%s", step, r.status(), r.tail()), labels, nil
+		default:
+			// not killed: it must have found a complete entry (no Add) and worked normally
+			labels = append(labels, "sequence:writer-found-entry")
+			if m, infra := mc.checkChildOK(step+" (not killed, so it must have found a complete entry)", r); m != "" || infra != nil {
+				return m, labels, infra
+			}
+			if b, ok := readFinal(mc.finalPath(dir)); !ok || !bytes.Equal(b, mc.ref) {
+				return "", labels, fmt.Errorf("%s was not killed although no complete entry exists (crash point not reached?)", step)
+			}
+		}
+		m, _, _, infra := mc.checkAfterKill(dir, "after "+step+" ended,")
+		if m != "" || infra != nil {
+			return m, labels, infra
+		}
+	}
+	m, infra := mc.useDir(fmt.Sprintf("fresh runtime using the directory after the sequence [stale=%v%s]", f.Stale, done), dir)
 	return m, labels, infra
 }
 
@@ -1024,7 +1105,6 @@ func (mc *modCtx) faultEntry(f fault, entry []byte) (msg string, labels []string
 		return "", nil, err
 	}
 	what := fmt.Sprintf("entry with fault %s(%s)", f.Kind, f.param())
-	evid.Journal(mc.rcase(f))
 	s, cerr, p, infra := openSession(dir, mc.wasm)
 	defer s.close()
 	if infra != nil {
@@ -1128,7 +1208,6 @@ func (mc *modCtx) faultConcurrent(f fault) (msg string, labels []string, infra e
 			s.close()
 		}
 	}()
-	evid.Journal(mc.rcase(f))
 	start := make(chan struct{})
 	errs := make([]error, f.G)
 	pans := make([]any, f.G)
@@ -1352,6 +1431,7 @@ type coverageSample struct {
 	TruncAll    bool     `json:"truncation_exhaustive"`
 	Versions    []string `json:"foreign_versions"`
 	Corruptions int      `json:"corruptions"`
+	Sequences   []string `json:"crash_sequences"`
 	Concurrent  string   `json:"concurrent"`
 }
 
@@ -1387,8 +1467,23 @@ func moduleLabels(s *modSpec, mc *modCtx) []string {
 	return l
 }
 
-func runModule(t *rapid.T) {
-	spec := genSpec(t)
+func runModule(t *rapid.T) { runSpec(t, genSpec(t)) }
+
+// fixedSpecs are corner modules that every run covers whatever the seed draws.
+func fixedSpecs() []*modSpec {
+	one := funcSpec{R: []byte{tI32}, Body: []byte{0x23, 0, 0x45, 0x04, 0x40, 0x00, 0x0b, 0x23, 0, 0x41, 1, 0x6b, 0x24, 0, 0x41, 42}, Export: true}
+	fuel := []globSpec{{T: tI32, Mut: true, V: fuelPerCall}}
+	return []*modSpec{
+		{Mem: -1, Table: -1}, // the empty module
+		{Mem: -1, Table: -1, Customs: []custSpec{{Name: "x", Data: []byte{1}}}, Names: true},
+		{Mem: 1, Table: 3, Data: []byte("c13"), Globals: []globSpec{{T: tI64, Mut: false, V: 7}}},
+		{Mem: -1, Table: -1, NHost: 3},
+		{Mem: -1, Table: -1, Globals: fuel, Funcs: []funcSpec{one}, Calls: []callSpec{{Func: 0}}},
+		{Mem: 0, Table: -1, Globals: fuel, Funcs: []funcSpec{one}, Calls: []callSpec{{Func: 0}}, Dwarf: true, Names: true},
+	}
+}
+
+func runSpec(t *rapid.T, spec *modSpec) {
 	mc, err := newModCtx(spec)
 	if err != nil {
 		t.Fatalf("harness: %v", err)
@@ -1396,6 +1491,7 @@ func runModule(t *rapid.T) {
 	defer mc.cleanup()
 	nontrivial := len(spec.Funcs) >= 1 && mc.lay.ExecEnd > mc.lay.ExecStart
 	do := func(f fault, lbls ...string) {
+		evid.Journal(mc.rcase(f)) // a death of the shard is attributed to this case
 		msg, labels, infra := mc.runFault(f)
 		if infra != nil {
 			t.Fatalf("harness: fault %s(%s): %v", f.Kind, f.param(), infra)
@@ -1432,6 +1528,19 @@ func runModule(t *rapid.T) {
 		do(f)
 	}
 	cov.Corruptions = len(cs)
+	pts := crashPoints(len(mc.ref))
+	for i := 0; i < 2; i++ {
+		sf := fault{Kind: "sequence", Stale: rapid.Bool().Draw(t, "seq-stale")}
+		if sf.Stale {
+			sf.Version = rapid.SampledFrom(foreignVersions(mc.lay.Version)).Draw(t, "seq-version")
+		}
+		n := rapid.IntRange(2, 3).Draw(t, "seq-len")
+		for j := 0; j < n; j++ {
+			sf.Points = append(sf.Points, rapid.SampledFrom(pts).Draw(t, "seq-point"))
+		}
+		do(sf)
+		cov.Sequences = append(cov.Sequences, sf.param())
+	}
 	g, p := rapid.IntRange(2, 8).Draw(t, "goroutines"), rapid.IntRange(2, 4).Draw(t, "processes")
 	do(fault{Kind: "concurrent", G: g, P: p})
 	cov.Concurrent = fmt.Sprintf("%d goroutines + %d processes", g, p)
@@ -1451,7 +1560,18 @@ func TestCache(t *testing.T) {
 	if evid.ReplayPath() != "" || os.Getenv("C13_REQ") != "" {
 		t.Skip()
 	}
-	evid.Check(t, "cache-faults", evid.Scale(12, 208), runModule)
+	evid.Check(t, "fixed-modules", 1, func(t *rapid.T) {
+		for i, spec := range fixedSpecs() {
+			if evid.Mine(i) {
+				evid.Label("fixed-modules", 1)
+				runSpec(t, spec)
+			}
+		}
+	})
+	evid.Check(t, "cache-faults", evid.Scale(16, 200), runModule)
+	if sh, _ := evid.Shard(); sh != 0 {
+		return
+	}
 	evid.Note("crash points are enumerated completely per module (after_create, mid_copy@{0,1,len/2,len-1}, after_copy, after_sync, after_close, after_rename); truncation is complete (every length 0..len-1) for entries <= %d bytes, otherwise complete over header/offset table/checksum/trailer plus drawn lengths in the code body and source map; modules, corrupted bytes and writer counts are sampled", smallEntry)
 }
 
